@@ -162,6 +162,15 @@ impl PersistentStorageImpl {
 
     pub async fn delete_value(&self, key: &Key) -> PersistenceResult<()> {
         if key.starts_with(SYSTEM_TOPIC_ROOT_PREFIX) {
+            // a client that deletes its grave goods or last will entry withdraws that registration
+            if let Some(client_id) = key.split('/').nth(2).and_then(|id| id.parse().ok()) {
+                if is_grave_goods_topic(key) {
+                    return self.update_grave_goods(client_id, None).await;
+                }
+                if is_last_will_topic(key) {
+                    return self.update_last_will(client_id, None).await;
+                }
+            }
             return Ok(());
         }
 
@@ -173,6 +182,40 @@ impl PersistentStorageImpl {
             PersistentStorageImpl::SQLite(s) => s.delete_value(key).await,
             #[cfg(feature = "turso")]
             PersistentStorageImpl::Turso(s) => s.delete_value(key).await,
+            PersistentStorageImpl::Noop => Ok(()),
+        }
+    }
+
+    async fn update_grave_goods(
+        &self,
+        client_id: ClientId,
+        grave_goods: Option<GraveGoods>,
+    ) -> PersistenceResult<()> {
+        match self {
+            PersistentStorageImpl::Json(s) => s.update_grave_goods(client_id, grave_goods).await,
+            #[cfg(feature = "redb")]
+            PersistentStorageImpl::ReDB(s) => s.update_grave_goods(client_id, grave_goods).await,
+            #[cfg(feature = "sqlite")]
+            PersistentStorageImpl::SQLite(s) => s.update_grave_goods(client_id, grave_goods).await,
+            #[cfg(feature = "turso")]
+            PersistentStorageImpl::Turso(s) => s.update_grave_goods(client_id, grave_goods).await,
+            PersistentStorageImpl::Noop => Ok(()),
+        }
+    }
+
+    async fn update_last_will(
+        &self,
+        client_id: ClientId,
+        last_will: Option<LastWill>,
+    ) -> PersistenceResult<()> {
+        match self {
+            PersistentStorageImpl::Json(s) => s.update_last_will(client_id, last_will).await,
+            #[cfg(feature = "redb")]
+            PersistentStorageImpl::ReDB(s) => s.update_last_will(client_id, last_will).await,
+            #[cfg(feature = "sqlite")]
+            PersistentStorageImpl::SQLite(s) => s.update_last_will(client_id, last_will).await,
+            #[cfg(feature = "turso")]
+            PersistentStorageImpl::Turso(s) => s.update_last_will(client_id, last_will).await,
             PersistentStorageImpl::Noop => Ok(()),
         }
     }
